@@ -453,12 +453,14 @@ impl Property for HistProp {
 pub struct StopCase {
     pub model: Model,
     pub cfg: Config,
-    /// 0 satisfy, 1 iterate, 3 optimise SAT-UNSAT, 4 optimise UNSAT-SAT
+    /// 0 satisfy, 1 iterate, 2 satisfy under assumptions, 3 optimise SAT-UNSAT, 4 optimise UNSAT-SAT
     pub path: u8,
     pub objective: Term,
     pub maximise: bool,
     /// reuse the brancher of the interrupted solve for the follow-up solve
     pub reuse_brancher: bool,
+    #[serde(default)]
+    pub assumptions: Vec<Pred>,
 }
 
 pub struct StopProp;
@@ -498,6 +500,33 @@ impl StopProp {
                 }
                 SatRes::Unknown => definitive = false,
             },
+            2 => {
+                let live_a: Vec<&&Vec<i32>> = live.iter().filter(|s| case.assumptions.iter().all(|p| p.holds(s[p.var] as i64))).collect();
+                match satisfy_under_assumptions(b, br, t, &case.assumptions, false) {
+                    AssRes::Sat(a) => {
+                        if let Some(why) = sem::first_violation(m, &a) {
+                            return Err(Failure::new("wrong:invalid-solution", format!("[{what}] Satisfiable({:?}) under assumptions: {}", a, why)));
+                        }
+                        if case.assumptions.iter().any(|p| !p.holds(a[p.var] as i64)) {
+                            return Err(Failure::new("wrong:assumption-violated", format!("[{what}] solution {:?} violates an assumption of {:?}", a, case.assumptions)));
+                        }
+                        definitive = true;
+                    }
+                    AssRes::UnsatUnderAssumptions(_) => {
+                        if !live_a.is_empty() {
+                            return Err(Failure::new("wrong:unsat-under-assumptions-but-sat", format!("[{what}] the assumptions {:?} are satisfiable, e.g. {:?}", case.assumptions, live_a[0])));
+                        }
+                        definitive = true;
+                    }
+                    AssRes::Unsat => {
+                        if !live.is_empty() {
+                            return Err(Failure::new("wrong:unsat-but-sat", format!("[{what}] Unsatisfiable but {} solutions exist", live.len())));
+                        }
+                        definitive = true;
+                    }
+                    AssRes::Unknown => definitive = false,
+                }
+            }
             1 => {
                 let (got, end) = iterate(b, br, t, 100_000);
                 for a in &got {
@@ -600,12 +629,13 @@ impl Property for StopProp {
             .prop_map(move |((rv, rc), rcfg, ex, reuse_brancher)| {
                 let model = build_model(&pp, &rv, &rc);
                 let mut cfg = build_config(&rcfg);
-                let path = [0u8, 1, 3, 4][(ex.0 as usize) % 4];
-                if path == 4 {
+                let path = [0u8, 1, 2, 3, 4][(ex.0 as usize) % 5];
+                if path == 4 || path == 2 {
                     cfg.no_learning = false; // KF-no-learning-assumptions
                 }
                 let objective = build_objective(&model, &ex.1);
-                StopCase { model, cfg, path, objective, maximise: ex.2, reuse_brancher }
+                let assumptions = if path == 2 { build_assumptions(&model, &ex.3) } else { vec![] };
+                StopCase { model, cfg, path, objective, maximise: ex.2, reuse_brancher, assumptions }
             })
             .boxed()
     }
@@ -616,7 +646,7 @@ impl Property for StopProp {
         }
     }
     fn floors(&self, _tier: Tier) -> Vec<(&'static str, f64)> {
-        vec![("N>=4", 0.3), ("exhaustive_k", 0.5)]
+        vec![("N>=4", 0.22), ("exhaustive_k", 0.5)]
     }
     fn run(&self, case: &StopCase) -> Verdict {
         let m = &case.model;
@@ -664,6 +694,23 @@ impl Property for StopProp {
             }
             if t.fired {
                 interrupted += 1;
+                // whatever the moment of the interruption, the solver is back at the root afterwards: the bounds
+                // it reports must not exclude a solution of the model (blocking clauses and objective cuts only
+                // remove solutions, so the remaining ones are a subset of `sols` which has to be inside the bounds;
+                // only the solutions which are still live are required to be inside)
+                let live: Vec<&Vec<i32>> = sols
+                    .iter()
+                    .filter(|s| !blocked.contains(s) && cut.map_or(true, |c| if case.maximise { sem::tv(&case.objective, s) > c } else { sem::tv(&case.objective, s) < c }))
+                    .collect();
+                for (v, d) in b.doms.iter().enumerate() {
+                    let (lb, ub) = (b.solver.lower_bound(d), b.solver.upper_bound(d));
+                    if let Some(s) = live.iter().find(|s| s[v] < lb || s[v] > ub) {
+                        return Err(Failure::new(
+                            "wrong:bounds-after-interruption-exclude-solution",
+                            format!("[{what}] after the interrupted call variable {v} has bounds [{lb}, {ub}] but {:?} is a solution which no blocking clause or objective cut removed", s),
+                        ));
+                    }
+                }
             }
             // ask again without interruption
             let mut br2 = if case.reuse_brancher { br } else { b.brancher(&case.cfg.brancher) };
